@@ -7,6 +7,8 @@
 //	VERIF_REPLAYS directory where shrunk failing cases are written
 //	VERIF_REPLAY  path of a saved case: replay it instead of generating
 //	VERIF_KNOWN   path of known_findings.json
+//	VERIF_REGRESS directory of saved cases (<dir>/<TestName>/*.json) that are checked, without
+//	              the library, before anything is generated
 package evid
 
 import (
@@ -89,12 +91,15 @@ type Stats struct {
 	KnownSample    map[string]string `json:"known_samples"`
 	Extra          map[string]any    `json:"extra,omitempty"`
 	Completed      bool              `json:"completed"`
+	// Regress is the number of saved regression cases checked before generation.
+	Regress int `json:"regress,omitempty"`
 }
 
 // Collector accumulates statistics for one property in one process.
 type Collector struct {
 	mu       sync.Mutex
 	prop     string
+	test     string // name of the test function: written into replay files
 	st       Stats
 	hashes   map[string]struct{}
 	known    map[string]knownFinding
@@ -241,7 +246,7 @@ func (c *Collector) Flush(mode string, completed bool) {
 		if mode == "replay" {
 			path = os.Getenv("VERIF_REPLAY")
 		} else {
-			_ = os.WriteFile(path, c.lastFail, 0o644)
+			_ = os.WriteFile(path, withTestName(c.lastFail, c.test), 0o644)
 		}
 		c.st.Violations = append(c.st.Violations, violationRec{
 			Sig:    c.lastViol.Sig,
@@ -281,6 +286,7 @@ func Run[C any](t *testing.T, prop string, gen func(t *rapid.T) C, check func(c 
 
 // RunWith is Run with a caller-provided collector (to add extra coverage keys).
 func RunWith[C any](t *testing.T, col *Collector, gen func(t *rapid.T) C, check func(c C) Result) {
+	col.test = t.Name()
 	if p := os.Getenv("VERIF_REPLAY"); p != "" {
 		data, err := os.ReadFile(p)
 		if err != nil {
@@ -306,6 +312,30 @@ func RunWith[C any](t *testing.T, col *Collector, gen func(t *rapid.T) C, check 
 	defer func() {
 		col.Flush("rapid", completed)
 	}()
+	// Saved cases first: shrunk inputs of repaired defects and of the seeded changes, checked
+	// as plain regression cases that do not depend on what the generator happens to draw.
+	if dir := os.Getenv("VERIF_REGRESS"); dir != "" {
+		files, _ := filepath.Glob(filepath.Join(dir, t.Name(), "*.json"))
+		sort.Strings(files)
+		for _, f := range files {
+			data, err := os.ReadFile(f)
+			if err != nil {
+				t.Fatalf("read regression case: %v", err)
+			}
+			var c C
+			if err := json.Unmarshal(data, &c); err != nil {
+				t.Fatalf("decode regression case %s: %v", f, err)
+			}
+			if cur := os.Getenv("VERIF_CURRENT"); cur != "" {
+				_ = os.WriteFile(cur, data, 0o644)
+			}
+			r := safeCheck(col.prop, check, c)
+			col.st.Regress++
+			if v := col.Record(data, r); v != nil {
+				t.Fatalf("regression case %s: violation [%s]: %s", f, v.Sig, v.Msg)
+			}
+		}
+	}
 	rapid.Check(t, func(rt *rapid.T) {
 		c := gen(rt)
 		data, err := json.Marshal(c)
@@ -323,6 +353,21 @@ func RunWith[C any](t *testing.T, col *Collector, gen func(t *rapid.T) C, check 
 		}
 	})
 	completed = true
+}
+
+// withTestName adds "_test": <name> to a JSON object (decoders of the case ignore it).
+func withTestName(data []byte, test string) []byte {
+	var m map[string]json.RawMessage
+	if test == "" || json.Unmarshal(data, &m) != nil {
+		return data
+	}
+	name, _ := json.Marshal(test)
+	m["_test"] = name
+	out, err := json.Marshal(m)
+	if err != nil {
+		return data
+	}
+	return out
 }
 
 func truncate(s string, n int) string {
